@@ -55,7 +55,7 @@ pub(crate) fn segmentation_scenario_with_hello(kind: Kind, hello: Vec<u8>, hello
             steps.push(Step::SleepMs(SILENCE_MS));
         }
     }
-    Scenario { kind, steps, requests: replies.len(), extra_request: false, label, bad_credentials: false, password: crate::rsim::SSH_PASSWORD.to_string(), big_request: 0, slow_peer: false }
+    Scenario { kind, steps, requests: replies.len(), extra_request: false, label, bad_credentials: false, password: crate::rsim::SSH_PASSWORD.to_string(), big_request: 0, slow_peer: false, ssh_setup: Default::default(), abandon_close: false }
 }
 
 pub(crate) fn oracle_c06(sc: &Scenario, o: &Outcome) -> Verdict {
@@ -167,6 +167,21 @@ fn c06_enumerated(kind: Kind, j: usize) -> Option<Scenario> {
         let replies = vec![r(1, sizes[j]), r(2, 140)];
         let cuts = vec![replies[0].len()];
         return Some(segmentation_scenario(kind, &[], &replies, &cuts, format!("reply of {} bytes in one unit", sizes[j])));
+    }
+    j -= sizes.len();
+    // F. a backlog: 40 pipelined requests whose replies all arrive before the first one is collected
+    // (more than any queue between a transport's receive side and the session holds), then silence
+    if j < 2 {
+        let replies: Vec<Vec<u8>> = (1..=40).map(|i| r(i, 120 + i)).collect();
+        let mut cuts = Vec::new();
+        if j == 1 {
+            let mut acc = 0;
+            for x in &replies {
+                acc += x.len();
+                cuts.push(acc);
+            }
+        }
+        return Some(segmentation_scenario(kind, &[], &replies, &cuts, format!("backlog of 40 replies, {}", if j == 0 { "one unit" } else { "one unit each" })));
     }
     None
 }
@@ -357,6 +372,8 @@ fn disconnect_scenario(kind: Kind, point: Point, outstanding: usize, close: Clos
         password: crate::rsim::SSH_PASSWORD.to_string(),
         big_request: 0,
         slow_peer: false,
+        ssh_setup: Default::default(),
+        abandon_close: false,
     }
 }
 
@@ -376,7 +393,18 @@ fn c07_enumerated(i: usize) -> Option<Scenario> {
             }
         }
     }
-    all.get(i).map(|(k, p, o, c)| disconnect_scenario(*k, *p, *o, *c, 77))
+    if i < all.len() {
+        return all.get(i).map(|(k, p, o, c)| disconnect_scenario(*k, *p, *o, *c, 77));
+    }
+    // SSH only: the server goes away while the connection is being set up - after it confirmed the
+    // session channel, instead of answering the request for the "netconf" subsystem
+    let setup = [crate::rsim::SetupClose::ChannelClose, crate::rsim::SetupClose::ChannelEofClose, crate::rsim::SetupClose::Disconnect];
+    setup.get(i - all.len()).map(|k| {
+        let mut sc = disconnect_scenario(Kind::Ssh, Point::BeforeHello, 0, CloseKind::Clean, 0);
+        sc.ssh_setup.at_subsystem = Some(*k);
+        sc.label = format!("{k:?} instead of the subsystem reply at BeforeHello, 0 outstanding");
+        sc
+    })
 }
 
 fn c07_enum_count() -> usize {
@@ -496,7 +524,7 @@ pub static C06: PropSpec = PropSpec {
     runs: |t| if t == Tier::Thorough { 300_000 } else { 500 },
     enumerated: |_| 3 * c06_enum_per_kind() as u64,
     run: run_c06,
-    rule: "enumerated per transport (TLS, local CLI, SSH): a two-reply stream with every single cut from 8 bytes before to 8 bytes after each delimiter (hello, reply 1, reply 2), every pair of cuts inside one delimiter, all groupings of 2 and 3 replies into units, one-byte chunks, single-unit replies of 41 sizes around the receive buffer's capacity boundaries; seeded: 1-5 replies of 110..9000 bytes, 0-5 cuts (half of them within 8 bytes of a delimiter), message boundaries cut or merged, hello cut as well; one seeded run in ten drops the reading future between two deliveries (the bytes it had taken off the stream must stay with the transport); one seeded run in 25 is the outgoing direction: a request of 70-260 KiB, in half of these runs over a connection with 4 KiB socket buffers to a TLS peer that reads 4 KiB per virtual millisecond - the peer must frame every request exactly once, complete, without further traffic from the client. One chunk = one TLS record / one SSH CHANNEL_DATA / one pipe write, delivered in lock-step under the paused clock; after each completed reply the peer stays silent for 400 virtual ms. Oracle: every request resolves to its own reply, within 100 virtual ms of the delivery of the last byte of its delimiter. Distinct = distinct event-log hash; every run is non-trivial",
+    rule: "enumerated per transport (TLS, local CLI, SSH): a two-reply stream with every single cut from 8 bytes before to 8 bytes after each delimiter (hello, reply 1, reply 2), every pair of cuts inside one delimiter, all groupings of 2 and 3 replies into units, one-byte chunks, single-unit replies of 41 sizes around the receive buffer's capacity boundaries, a backlog of 40 pipelined replies (in one unit, or one unit each) that all arrive before the first is collected; seeded: 1-5 replies of 110..9000 bytes, 0-5 cuts (half of them within 8 bytes of a delimiter), message boundaries cut or merged, hello cut as well; one seeded run in ten drops the reading future between two deliveries (the bytes it had taken off the stream must stay with the transport); one seeded run in 25 is the outgoing direction: a request of 70-260 KiB, in half of these runs over a connection with 4 KiB socket buffers to a TLS peer that reads 4 KiB per virtual millisecond - the peer must frame every request exactly once, complete, without further traffic from the client. One chunk = one TLS record / one SSH CHANNEL_DATA / one pipe write, delivered in lock-step under the paused clock; after each completed reply the peer stays silent for 400 virtual ms. Oracle: every request resolves to its own reply, within 100 virtual ms of the delivery of the last byte of its delimiter. Distinct = distinct event-log hash; every run is non-trivial",
     components: COMPONENTS,
     assumptions: &["Linux delivers loopback TCP and pipe data synchronously with write(); the standing two-worker re-execution check guards the resulting determinism"],
     watchdog_s: 8,
@@ -511,7 +539,7 @@ pub static C07: PropSpec = PropSpec {
     runs: |t| if t == Tier::Thorough { 8_000 } else { 300 },
     enumerated: |_| c07_enum_count() as u64 + super::c07_proc::scenarios(),
     run: run_c07,
-    rule: "enumerated, job level (15 scenarios): the agent executable in daemon mode (real clock) against FakeJunos on a TLS listener and FakeIrrd on loopback TCP; the router closes instead of, or right after, its reply to request 0-4 of the run (open-configuration, the two pipelined get-configs, load, commit) while the IRRd answers normally or has gone silent (an evaluation is then still in progress when the router goes away); the daemon must report the failed job (and announce its retry) within 10 s of the close. enumerated, session level: close point {before hello, inside hello, after hello while idle, between request and reply, inside a reply, after some of the replies} x outstanding requests {0, 1, 2, 3} x close kind per transport (TLS: close_notify+FIN, FIN without close_notify, RST; SSH: channel EOF, channel close, EOF+close, TCP FIN, TCP RST; local: EOF on stdout, child killed); seeded: the same space with 1-4 outstanding requests and seeded cut offsets. Oracle: establishment, every pending request and one request issued afterwards complete with an error (a reply that had fully arrived may succeed) within 5 virtual seconds; a client that stops making virtual-time progress is reported by the real-time watchdog as class 'spin'. Every run is non-trivial",
+    rule: "enumerated, job level (15 scenarios): the agent executable in daemon mode (real clock) against FakeJunos on a TLS listener and FakeIrrd on loopback TCP; the router closes instead of, or right after, its reply to request 0-4 of the run (open-configuration, the two pipelined get-configs, load, commit) while the IRRd answers normally or has gone silent (an evaluation is then still in progress when the router goes away); the daemon must report the failed job (and announce its retry) within 10 s of the close. enumerated, session level: SSH server going away instead of answering the subsystem request (channel close / EOF+close / connection dropped); close point {before hello, inside hello, after hello while idle, between request and reply, inside a reply, after some of the replies} x outstanding requests {0, 1, 2, 3} x close kind per transport (TLS: close_notify+FIN, FIN without close_notify, RST; SSH: channel EOF, channel close, EOF+close, TCP FIN, TCP RST; local: EOF on stdout, child killed); seeded: the same space with 1-4 outstanding requests and seeded cut offsets. Oracle: establishment, every pending request and one request issued afterwards complete with an error (a reply that had fully arrived may succeed) within 5 virtual seconds; a client that stops making virtual-time progress is reported by the real-time watchdog as class 'spin'. Every run is non-trivial",
     components: COMPONENTS_C07,
     assumptions: &["the spin watchdog reads a real clock (8 s without a virtual-time heartbeat); it can only raise a false alarm if the machine stalls that long"],
     watchdog_s: 8,
